@@ -106,3 +106,25 @@ func TestReproF20GzipIntOptions(t *testing.T) {
 		t.Fatalf("gzip options as YAML writes them are rejected: %v", err)
 	}
 }
+
+// F23 (C15): an informational 1xx before the final status makes the gzip plugin lose the final status.
+func TestReproF23GzipInformationalThenFinal(t *testing.T) {
+	h := chain(t, "gzip", gzCfg, http.HandlerFunc(func(w http.ResponseWriter, r *http.Request) {
+		w.Header().Set("Content-Type", "text/plain")
+		w.WriteHeader(http.StatusEarlyHints)
+		w.WriteHeader(http.StatusNotFound)
+		_, _ = io.WriteString(w, strings.Repeat("not found ", 50))
+	}))
+	srv := httptest.NewServer(h)
+	defer srv.Close()
+	req, _ := http.NewRequest("GET", srv.URL, nil)
+	req.Header.Set("Accept-Encoding", "gzip")
+	resp, err := http.DefaultTransport.RoundTrip(req)
+	if err != nil {
+		t.Fatal(err)
+	}
+	resp.Body.Close()
+	if resp.StatusCode != http.StatusNotFound {
+		t.Fatalf("backend's final status 404 reached the client as %d", resp.StatusCode)
+	}
+}
